@@ -12,8 +12,10 @@ that function, applied on top of ARBITRARY previous map contents.  Hypotheses ar
 * **H1** (LPM contract, discharged): C12's `kernel_userspace_same_set` — used inside the proof;
 * **H2** `domain`: the bitmap installed for the destination equals userspace's `MatchDomainBitmap`
   (C10 / C11's subject);
-* **H3** `EntryOK.pname`: LAN packets carry no process name and a WAN packet with an unknown process
-  meets no rule for the all-zero name (`routeK_pname_gap` shows that the hypothesis is needed).
+* **H3** `PktOK.lanNoPname`: LAN packets carry no process name (the LAN hook leaves `flag[2..5]`
+  zero). Since the kernel tests `is_wan && pname[0] != 0 && equal16` (fix C02.fix1) nothing is
+  assumed about rules any more: a rule for the empty process name matches on neither side
+  (`empty_pname_rule_agrees`); `lan_pname_hypothesis_needed` shows what H3 still excludes.
 -/
 namespace DaeVerif.C02.Props
 open DaeVerif.RuleScan DaeVerif.C12 DaeVerif.C01 DaeVerif.C02
@@ -37,13 +39,13 @@ def exPkt : PktK := ⟨2, 1, [0x63, 0x75, 0x72, 0x6c, 0, 0, 0, 0, 0, 0, 0, 0, 0,
 def exOld : KMaps := installGen .little 1000 (exKp ++ exKp) (exTries ++ exTries) KMaps.empty
 def exMaps : KMaps := installGen .little 1023 exKp exTries exOld
 
-theorem exEntriesOK : ∀ k ∈ exKp, EntryOK exPkt exTries.length k := by
+theorem exEntriesOK : ∀ k ∈ exKp, EntryOK exTries.length k := by
   intro k hk
   simp only [exKp, List.mem_cons, List.not_mem_nil, or_false] at hk
   rcases hk with rfl | rfl | rfl | rfl | rfl | rfl | rfl | rfl | rfl | rfl <;>
-    exact ⟨by decide, by decide, by decide, by decide⟩
+    exact ⟨by decide, by decide, by decide⟩
 theorem exTriesWF : ∀ t ∈ exTries, ∀ p ∈ t, p.WF := by decide
-theorem exPktOK : PktOK exPkt := ⟨by decide, by decide, by decide, by decide, by decide, by decide⟩
+theorem exPktOK : PktOK exPkt := ⟨by decide, by decide, by decide, by decide, by decide, by decide, by decide⟩
 
 /-! ## 1. the kernel program returns what the userspace matcher decides -/
 
@@ -58,7 +60,7 @@ theorem routeK_eq_userspace (m : KMaps) (pk : PktK) (start : Nat) (kp : List KEn
     (triesWF : ∀ t ∈ tries, ∀ p ∈ t, p.WF)
     (pktOK : PktOK pk)
     (domain : ∀ w, m.domainWord pk.daddr w = ubm.getD w 0)
-    (entriesOK : ∀ k ∈ kp, EntryOK pk tries.length k) :
+    (entriesOK : ∀ k ∈ kp, EntryOK tries.length k) :
     routeK .little m pk = expectedK pk (matchU kp tries ubm pk) :=
   routeK_main m pk start kp tries ubm installed triesWF pktOK domain entriesOK
 
@@ -81,7 +83,7 @@ theorem routeK_after_any_reload_history (m0 : KMaps) (dom : List (Nat × List Na
     (rulesFit : kp.length ≤ MaxMatchSetLen) (triesFit : tries.length ≤ MaxMatchSetLen)
     (triesWF : ∀ t ∈ tries, ∀ p ∈ t, p.WF) (pktOK : PktOK pk)
     (domain : ∀ w, ({ installGen .little start kp tries m0 with domain := dom } : KMaps).domainWord pk.daddr w = ubm.getD w 0)
-    (entriesOK : ∀ k ∈ kp, EntryOK pk tries.length k) :
+    (entriesOK : ∀ k ∈ kp, EntryOK tries.length k) :
     routeK .little { installGen .little start kp tries m0 with domain := dom } pk =
       expectedK pk (matchU kp tries ubm pk) :=
   routeK_main _ pk start kp tries ubm ((installGen_installed start kp tries m0 rulesFit triesFit).with_domain dom)
@@ -95,7 +97,7 @@ theorem kernel_decision (m : KMaps) (pk : PktK) (start : Nat) (kp : List KEntry)
     (tries : List (List Prefix)) (ubm : List Nat) (installed : Installed m start kp tries)
     (triesWF : ∀ t ∈ tries, ∀ p ∈ t, p.WF) (pktOK : PktOK pk)
     (domain : ∀ w, m.domainWord pk.daddr w = ubm.getD w 0)
-    (entriesOK : ∀ k ∈ kp, EntryOK pk tries.length k) (o : Out) (hu : matchU kp tries ubm pk = some o) :
+    (entriesOK : ∀ k ∈ kp, EntryOK tries.length k) (o : Out) (hu : matchU kp tries ubm pk = some o) :
     unpack (routeK .little m pk).toNat = dnsAdjust pk o := by
   rw [routeK_eq_userspace m pk start kp tries ubm installed triesWF pktOK domain entriesOK, hu]
   obtain ⟨h1, h2⟩ := matchU_some_bounds kp tries ubm pk o (fun k hk => ⟨(entriesOK k hk).ob, (entriesOK k hk).mark⟩) hu
@@ -148,7 +150,7 @@ theorem kernel_eq_first_match_spec (rules : List SRule) (fb : Out) (p : Pkt) (wa
     (domain : ∀ w, ({ installGen .little start (assignFrom 0 (compileProgram rules fb)).1
         (assignFrom 0 (compileProgram rules fb)).2 m0 with domain := dom } : KMaps).domainWord (toK p wan).daddr w = ubm.getD w 0)
     (entriesOK : ∀ k ∈ (assignFrom 0 (compileProgram rules fb)).1,
-        EntryOK (toK p wan) (assignFrom 0 (compileProgram rules fb)).2.length k) :
+        EntryOK (assignFrom 0 (compileProgram rules fb)).2.length k) :
     routeK .little { installGen .little start (assignFrom 0 (compileProgram rules fb)).1
         (assignFrom 0 (compileProgram rules fb)).2 m0 with domain := dom } (toK p wan) =
       expectedK (toK p wan) (some (firstMatchS p rules fb false)) := by
@@ -156,13 +158,15 @@ theorem kernel_eq_first_match_spec (rules : List SRule) (fb : Out) (p : Pkt) (wa
     userspace_typed_eq_C01_matchM _ p wan ubm outboundsOK domainPositions,
     C01.Props.match_is_first_match rules fb p hp hr]
 
--- the chain's hypotheses hold for C01's own example program (its packet without a process name, LAN)
+-- the chain's hypotheses hold for C01's own example program
 example : (∀ e ∈ compileProgram C01.Props.exRules ⟨0, 0, false⟩, OutOK e) ∧
     DomOK [] C01.Props.exPkt 0 (compileProgram C01.Props.exRules ⟨0, 0, false⟩) ∧
     (assignFrom 0 (compileProgram C01.Props.exRules ⟨0, 0, false⟩)).1.length ≤ MaxMatchSetLen ∧
     (assignFrom 0 (compileProgram C01.Props.exRules ⟨0, 0, false⟩)).2.length = 2 ∧
-    (∀ k ∈ (assignFrom 0 (compileProgram C01.Props.exRules ⟨0, 0, false⟩)).1,
-      EntryOK (toK { C01.Props.exPkt with pname := List.replicate 16 0 } false) 2 k) := by decide
+    (∀ k ∈ (assignFrom 0 (compileProgram C01.Props.exRules ⟨0, 0, false⟩)).1, EntryOK 2 k) ∧
+    PktOK (toK C01.Props.exPkt true) := by
+  refine ⟨by decide, by decide, by decide, by decide, by decide, ?_⟩
+  exact ⟨by decide, by decide, by decide, by decide, by decide, by decide, by decide⟩
 
 /-! ## 3. the byte encodings the control plane writes are the ones the kernel reads -/
 
@@ -298,52 +302,47 @@ theorem ring_overlap_when_too_many (c0 n1 n2 s1 c1 s2 c2 : Nat)
 
 example : reserveRing 1000 30 = some (1000, 6) ∧ reserveRing 6 994 = some (6, 1000) := by decide
 
-/-! ## 6. where the two sides differ by construction (H3) -/
+/-! ## 6. the process name (H3) -/
 
-/-- **The process-name gap** (finding candidate #6): the kernel tests `is_wan && equal16`, userspace
-`processName[0] != 0 && equal`. With the rule `pname('') -> block` and a WAN packet whose process is
-unknown (16 zero bytes) the kernel blocks while userspace falls through to `direct`. Replayed on both
-implementations by the harness (stream `c02f6`). -/
-theorem routeK_pname_gap :
+/-- The former process-name gap (finding #6, repaired by C02.fix1): with the rule `pname('') -> block`
+and a WAN packet whose process is unknown (16 zero bytes) the kernel used to block (`is_wan &&
+equal16`) while userspace fell through. With the first-byte test both sides fall through to
+`direct`. The harness replays this input on both implementations (stream `c02f6`): reverting the fix
+is a detected violation. -/
+theorem empty_pname_rule_agrees :
     routeK .little (installGen .little 0 [⟨.processName (List.replicate 16 0), false, 1, false, 0⟩, ⟨.fallback, false, 0, false, 0⟩] [] KMaps.empty)
-        ⟨1, 1, List.replicate 16 0, 0, 1, 40000, 443, 1, 2, 0⟩ = pack 1 0 false ∧
+        ⟨1, 1, List.replicate 16 0, 0, 1, 40000, 443, 1, 2, 0⟩ = pack 0 0 false ∧
     matchU [⟨.processName (List.replicate 16 0), false, 1, false, 0⟩, ⟨.fallback, false, 0, false, 0⟩] [] []
         ⟨1, 1, List.replicate 16 0, 0, 1, 40000, 443, 1, 2, 0⟩ = some ⟨0, 0, false⟩ := by decide
 
-/-- H3 holds under the datapath's convention "LAN: no process name, WAN: process name known" … -/
-theorem pnameOK_of_convention (pk : PktK) (c : KCond)
-    (h : pk.wanw % 256 ≠ 0 ↔ pk.pname.headD 0 ≠ 0) : PnameOK pk c := by
-  constructor
-  · intro hw; by_cases hh : pk.pname.headD 0 = 0
-    · exact hh
-    · exact absurd hw (h.mpr hh)
-  · intro hw hh; exact absurd hh (h.mp hw)
-
-/-- … and, for WAN packets whose process is unknown, as soon as no rule names the empty process. -/
-theorem pnameOK_of_no_empty_name_rule (pk : PktK) (c : KCond) (hlan : pk.wanw % 256 = 0 → pk.pname.headD 0 = 0)
-    (hc : ∀ bs, c = .processName bs → bs.headD 0 ≠ 0) : PnameOK pk c := by
-  refine ⟨hlan, ?_⟩
-  intro _ hh hcp
-  exact hc pk.pname hcp hh
-
-/-- The headline WITHOUT hypothesis H3 (no assumption relating `is_wan` and the process name): the
-statement one would want if WAN packets of unknown processes and rules naming the empty process are
-both admitted. It is FALSE of the code as it is (next theorem) — see `routeK_pname_gap`. -/
+/-- The headline WITHOUT hypothesis H3 (nothing assumed about `is_wan` and the process name). -/
 def routeK_eq_userspace_without_H3 : Prop :=
   ∀ (m : KMaps) (pk : PktK) (start : Nat) (kp : List KEntry) (tries : List (List Prefix)) (ubm : List Nat),
-    Installed m start kp tries → (∀ t ∈ tries, ∀ p ∈ t, p.WF) → PktOK pk →
+    Installed m start kp tries → (∀ t ∈ tries, ∀ p ∈ t, p.WF) →
+    pk.saddr < 2 ^ 128 → pk.daddr < 2 ^ 128 → pk.mac < 2 ^ 128 → pk.l4w < 256 → pk.ipw < 256 → pk.dscpw < 256 →
     (∀ w, m.domainWord pk.daddr w = ubm.getD w 0) →
-    (∀ k ∈ kp, k.cond.WF tries.length ∧ k.outbound < 256 ∧ k.mark < 2 ^ 32) →
+    (∀ k ∈ kp, EntryOK tries.length k) →
     routeK .little m pk = expectedK pk (matchU kp tries ubm pk)
 
-theorem routeK_eq_userspace_without_H3_fails : ¬ routeK_eq_userspace_without_H3 := by
+/-- What H3 still excludes: a packet handed to `route()` with `is_wan = 0` AND a process name (no
+caller does that: the LAN hook never fills `flag[2..5]`). For such an input the kernel ignores the
+name and userspace would use it — so H3 cannot be dropped from the statement. -/
+theorem lan_pname_hypothesis_needed : ¬ routeK_eq_userspace_without_H3 := by
   intro h
-  have := h (installGen .little 0 [⟨.processName (List.replicate 16 0), false, 1, false, 0⟩, ⟨.fallback, false, 0, false, 0⟩] [] KMaps.empty)
-    ⟨1, 1, List.replicate 16 0, 0, 1, 40000, 443, 1, 2, 0⟩ 0
-    [⟨.processName (List.replicate 16 0), false, 1, false, 0⟩, ⟨.fallback, false, 0, false, 0⟩] [] []
+  have := h (installGen .little 0 [⟨.processName (0x63 :: List.replicate 15 0), false, 1, false, 0⟩, ⟨.fallback, false, 0, false, 0⟩] [] KMaps.empty)
+    ⟨1, 1, 0x63 :: List.replicate 15 0, 0, 0, 40000, 443, 1, 2, 0⟩ 0
+    [⟨.processName (0x63 :: List.replicate 15 0), false, 1, false, 0⟩, ⟨.fallback, false, 0, false, 0⟩] [] []
     (installGen_installed _ _ _ _ (by decide) (by decide)) (by decide)
-    ⟨by decide, by decide, by decide, by decide, by decide, by decide⟩ (fun w => rfl) (by decide)
+    (by decide) (by decide) (by decide) (by decide) (by decide) (by decide) (fun w => rfl) (by decide)
   revert this
   decide
+
+/-- H3 holds under the datapath's convention "process name known ⇒ WAN". -/
+theorem lanNoPname_of_convention (pk : PktK) (h : pk.pname.headD 0 ≠ 0 → pk.wanw % 256 ≠ 0) :
+    pk.wanw % 256 = 0 → pk.pname.headD 0 = 0 := by
+  intro hw
+  by_cases hh : pk.pname.headD 0 = 0
+  · exact hh
+  · exact absurd hw (h hh)
 
 end DaeVerif.C02.Props
